@@ -9,6 +9,7 @@ import (
 	"strings"
 	"time"
 
+	"github.com/robfig/soy"
 	"github.com/robfig/soy/ast"
 	"github.com/robfig/soy/parse"
 
@@ -17,13 +18,14 @@ import (
 
 // Run is the entry point for C17.
 func Run(ctx *core.Ctx) {
-	ctx.Rule = "cases: expression trees; (a) TLC-enumerated family of SoySyntax.tla: every (parent operator, child operator, operand position) over 14 binary, 2 unary and the ternary operator plus literal/data-reference/call shapes, with the spec's minimal and full spellings; (b) seeded random typed trees of depth<=6 in random spellings; (c) print commands with directives; each is parsed by the real parser, printed with String(), parsed again and the trees compared; non-trivial = the tree contains an operator, call, reference or collection literal; distinct by canonical tree"
+	ctx.Rule = "cases: expression trees; (a) TLC-enumerated family of SoySyntax.tla: every (parent operator, child operator, operand position) over 14 binary, 2 unary and the ternary operator plus literal/data-reference/call shapes, with the spec's minimal and full spellings; (b) seeded random typed trees of depth<=6 in random spellings; (c) print commands with directives; (d) every pair of print commands from a pool (differing in the expression only, the directives only, a directive argument only, or nothing) inside one {msg}: they share a placeholder name exactly when they are the same command; each is parsed by the real parser, printed with String(), parsed again and the trees compared; non-trivial = the tree contains an operator, call, reference or collection literal; distinct by canonical tree"
 	ctx.Assumptions = append(ctx.Assumptions, "tree comparison ignores positions and the original spelling of string literals")
 	model(ctx)
 	family(ctx)
 	literals(ctx)
 	random(ctx, ctx.Pick(6000, 500000))
 	printNodes(ctx, ctx.Pick(1500, 80000))
+	placeholderIdentity(ctx)
 }
 
 func cfg(mode string) string {
@@ -337,4 +339,77 @@ func literals(ctx *core.Ctx) {
 		check(ctx, "literals", src+" ?: [ "+src+" ]", "", "literal-in-operator")
 	}
 	ctx.Extra["literal_sources"] = len(srcs)
+}
+
+// placeholderIdentity: the message extractor identifies placeholders by the
+// printed text of the command. Two print commands inside one {msg} must share
+// a placeholder name exactly when they are the same command (same expression
+// AND same directives): pairs from a pool of commands that differ in the
+// expression only, in the directives only, in a directive argument only, or
+// not at all.
+func placeholderIdentity(ctx *core.Ctx) {
+	pool := []string{"{$x}", "{$x|noAutoescape}", "{$x|id}", "{$x|truncate:3}", "{$x|truncate:5}", "{$x|truncate:3,false}", "{$x|escapeUri|truncate:3}", "{$x|truncate:3|escapeUri}",
+		"{$a.x}", "{$a.x|noAutoescape}", "{$a?.x}", "{$a['x']}", "{$x + 1}", "{$x+1}", "{($x) + 1}", "{1 + $x}", "{$x ?: 1}", "{$x ? 1 : 2}", "{$x ? (1) : 2}", "{-$x}", "{-($x)}", "{not $x}",
+		"{$x == 1}", "{$x != 1}", "{[$x]}", "{['x': $x]}", "{[$x, 1]}", "{length($x)}", "{keys($x)}", "{$x.y}", "{'$x'}", "{print $x}", "{print $x|id}"}
+	n := 0
+	for i, a := range pool {
+		for j, b := range pool {
+			if j < i {
+				continue
+			}
+			src := "{namespace p}\n/** @param? x\n @param? a */\n{template .t}\n{msg desc=\"d\"}" + a + " - " + b + " - " + a + "{/msg}{$a ? '' : ''}{$x ? '' : ''}\n{/template}\n"
+			reg, err := soy.NewBundle().AddTemplateString("p.soy", src).Compile()
+			ctx.AddEvals(1)
+			if err != nil {
+				ctx.Violation(core.Sig{Family: "placeholder-identity", Feature: "source-rejected"}, "valid message rejected: "+src+": "+err.Error(), map[string]interface{}{"src": src})
+				continue
+			}
+			var names []string
+			var prints []*ast.PrintNode
+			var walk func(nd ast.Node)
+			walk = func(nd ast.Node) {
+				if ph, ok := nd.(*ast.MsgPlaceholderNode); ok {
+					if p, ok := ph.Body.(*ast.PrintNode); ok {
+						names = append(names, ph.Name)
+						prints = append(prints, p)
+					}
+				}
+				if p, ok := nd.(ast.ParentNode); ok {
+					for _, c := range p.Children() {
+						if c != nil {
+							walk(c)
+						}
+					}
+				}
+			}
+			for _, t := range reg.Templates {
+				walk(t.Node)
+			}
+			if len(names) != 3 {
+				ctx.ToolError("placeholder identity: expected 3 print placeholders in %q, found %d", src, len(names))
+				return
+			}
+			n++
+			ctx.AddTraces(1)
+			same := canonPrint(prints[0]) == canonPrint(prints[1])
+			rep := map[string]interface{}{"src": src, "names": names}
+			switch {
+			case names[0] != names[2]:
+				ctx.Violation(core.Sig{Family: "placeholder-identity", Feature: "same-command-two-names"},
+					fmt.Sprintf("the command %s occurs twice in one message and got two placeholder names %s / %s", a, names[0], names[2]), rep)
+			case same && names[0] != names[1]:
+				ctx.Violation(core.Sig{Family: "placeholder-identity", Feature: "same-command-two-names"},
+					fmt.Sprintf("%s and %s are the same command but got placeholder names %s / %s", a, b, names[0], names[1]), rep)
+			case !same && names[0] == names[1]:
+				feat := "different-expressions-one-name"
+				if core.Canon(core.FromAST(prints[0].Arg)) == core.Canon(core.FromAST(prints[1].Arg)) {
+					feat = "different-directives-one-name"
+				}
+				ctx.Violation(core.Sig{Family: "placeholder-identity", Feature: feat},
+					fmt.Sprintf("%s and %s are different commands but share the placeholder name %s (printed texts %q / %q)", a, b, names[0], prints[0].String(), prints[1].String()), rep)
+			}
+			ctx.Distinct("phid:" + a + "|" + b)
+		}
+	}
+	ctx.Extra["placeholder_identity_pairs"] = n
 }
